@@ -252,6 +252,9 @@ pub enum Action {
     Abort { handle: u32 },
     /// a shell event that does nothing (core hosts: `process_event(Noop)`)
     Noop,
+    /// the holder of the command extends it from outside: `cmd = cmd.and(other)` (hosts that
+    /// hold the command object only)
+    Extend(Box<Cmd>),
 }
 
 #[derive(Serialize, Deserialize, Clone, Debug, PartialEq, Eq)]
